@@ -38,7 +38,7 @@ MODULES = ['Pyiga.Model.Hier'] + ['Pyiga.Proofs.Hier' + m for m in (
     'Cover', 'Inc', 'Indep')] + ['Pyiga.Props.C04']
 
 SEGMENTS = ['ret', 'state', 'flatc', 'flatf', 'numdofs', 'aidx', 'didx', 'glob', 'new', 'trunc', 'fsupp', 'csupp',
-            'smooth', 'inc', 'mesh', 'fch', 'fpa', 'sup']
+            'smooth', 'inc', 'mesh', 'fch', 'fpa', 'sup', 'vsup']
 CHUNK = 300
 
 
@@ -149,6 +149,17 @@ def fmt_step(hs, ret, cache, body_cache=None):
             body_cache[key] = fmt_body(hs, cache)
         return 'ret=' + ret + ' | ' + body_cache[key]
     return 'ret=' + ret + ' | ' + fmt_body(hs, cache)
+
+
+def fmt_vsup(hs):
+    """answer of a `vsup` request: the five `cell_*` properties (compute_virtual_supports), per family a list over
+    virtual levels of per-level sorted cell lists"""
+    L = hs.numlevels
+    try:
+        fams = [hs.cell_global, hs.cell_new, hs.cell_trunc, hs.cell_func_supp, hs.cell_cell_supp]
+        return 'vsup=' + plist(fams, lambda t: plist(t, lambda d: sLL([sorted(d.get(l, ())) for l in range(L)])))
+    except Exception as ex:
+        return 'vsup=err-' + type(ex).__name__
 
 
 def fmt_body(hs, cache):
@@ -847,15 +858,16 @@ def run(ctx):
                         'a refine that raises leaves the space unchanged (the harness restores a copy taken before the call)']
     ctx.rule = ('exhaustive: 1-D uniform meshes with 2-4 cells, p 1-3, three 1-D knot vectors with interior multiplicity 2, 2-D 2x2 p 1-2; '
                 'disparity 1/2/inf; all sequences of <=2 (quick) / <=3 (thorough) refine calls where every call marks a non-empty subset of '
-                'all currently active cells (all subsets when there are <=6 active cells (2nd call quick: <=3; thorough 2nd/3rd call: <=4/<=2), otherwise a sample of 12/6 (thorough 16/8/2) incl. all-finest / first-of-each-level / all); '
+                'all currently active cells (all subsets when there are <=6 active cells (2nd call quick: <=3; thorough 2nd/3rd call: <=4/<=2), otherwise a sample of 10/4 (thorough 16/8/2) incl. all-finest / first-of-each-level / all); '
                 'random: 1-D (2-6 cells, p 1-4, interior multiplicities 1..p, non-uniform breakpoints), 2-D (2-3 cells per axis, p 1-3), '
                 '3-D (2x2x2, p 1-2), disparity 1/2/3/inf, 1-6 calls mixing refine (truncate on/off, 1-3 levels per call), refine_region predicates and '
                 'empty marks; containers set/frozenset/list/tuple with duplicates, shuffled, missing vs explicit-empty keys. '
-                'One request per history (every prefix state is reported by the driver). non-trivial = final space has >=2 levels and a deactivated function; '
+                'One request per history (every prefix state is reported by the driver), plus a `vsup` request (the five cell_* properties of the final space) for every random and every 6th exhaustive history. non-trivial = final space has >=2 levels and a deactivated function; '
                 'distinct by request line')
     cache = {}
     stream = Stream(ctx)
     norc = [0]
+    nvs = [0]
     orc_seen = {}
 
     def oracle_once(cfg, ops, hs, adm, ckey):
@@ -875,6 +887,12 @@ def run(ctx):
     def finish_history(cfg, header, ops, steps, hs, stream_name):
         request = ' '.join([header, str(len(ops))] + [op_request(o) for o in ops])
         stream.add(cfg, request, ops, steps)
+        # compute_virtual_supports (cell_global / cell_new / cell_trunc / cell_func_supp / cell_cell_supp) of the
+        # final space: every random history and every 6th exhaustive one (each property deep-copies the space per level)
+        nvs[0] += 1
+        if stream_name != 'exhaustive' or nvs[0] % 6 == 0:
+            stream.add(cfg, 'vsup' + request[4:], ops, [fmt_vsup(hs)])
+            ctx.count('vsup requests')
         ctx.case(request, nontrivial(hs))
         ctx.count('stream=' + stream_name)
         ctx.count('dim=%d' % hs.dim)
@@ -902,7 +920,7 @@ def run(ctx):
 
     # ---- exhaustive stream
     # per call depth: (enumerate all non-empty subsets up to this many active cells, sample size otherwise)
-    plan = [(6, 12), (3, 6)] if quick else [(6, 16), (4, 8), (2, 2)]
+    plan = [(6, 10), (3, 4)] if quick else [(6, 16), (4, 8), (2, 2)]
     depth = len(plan)
     for ci, cfg in enumerate(exhaustive_configs(ctx)):
         header = cfg_header(cfg)
